@@ -313,7 +313,7 @@ def install_types(tr: Translator):
     tm["ControlFlow"] = t_controlflow
     tm["Infallible"] = t_unit
     for n in ("Duration", "Instant", "PhantomData", "Arguments", "Argument", "String", "str", "Formatter", "Error",
-              "ExecuteMetricsCollector", "Histogram", "Counter", "Gauge", "RandomState"):
+              "ExecuteMetricsCollector", "Histogram", "Counter", "Gauge", "RandomState", "AssertKind"):
         tm[n] = t_unit
     tm["Iter"] = _t_iter_dispatch
 
@@ -1216,3 +1216,5 @@ def m_from_residual_opt(tr, c):
 def install(tr: Translator):
     tr.models = REG
     install_types(tr)
+    import models2
+    models2.install(tr)
